@@ -373,6 +373,9 @@ class DensityMatrix(NeuralStateBase):
 
     @staticmethod
     def autoload(location, gpu=False):
+        # `location` may be an open file object: it is read twice (here for the
+        # sizes, then by `load`), so remember where its data starts
+        start = location.tell() if hasattr(location, "seek") else None
         state_dict = torch.load(location)
         nn_state = DensityMatrix(
             unitary_dict=state_dict["unitary_dict"],
@@ -381,5 +384,7 @@ class DensityMatrix(NeuralStateBase):
             num_aux=len(state_dict["rbm_am"]["aux_bias"]),
             gpu=gpu,
         )
+        if start is not None:
+            location.seek(start)
         nn_state.load(location)
         return nn_state
